@@ -7,6 +7,8 @@ import (
 	"io"
 	"log"
 	"os"
+	"os/signal"
+	"syscall"
 	"sort"
 	"strings"
 	"testing"
@@ -56,6 +58,9 @@ func setupProcess() {
 		os.RemoveAll(dir)
 	}
 	log.SetOutput(io.Discard)
+	// server.Start calls signal.Notify: the runtime's signal-mask goroutine and its
+	// channels must come into being outside any synctest bubble
+	signal.Notify(make(chan os.Signal, 1), syscall.SIGUSR2)
 }
 
 func tapeSeed(env *core.Env, run int) uint64 {
@@ -74,6 +79,10 @@ func (e *Engine) Run(env *core.Env, run int, res *core.Result) *core.Violation {
 	if race {
 		sc.Knobs.Burst = true
 		sc.Knobs.YieldRMW = false
+		if env.Property == "C20" {
+			// the connections go through the real accept loop of server.Start
+			sc.Knobs.ViaStart = true
+		}
 		for i := range sc.Clients {
 			sc.Clients[i].Chunked = false
 		}
